@@ -10,7 +10,8 @@
 (* implementation's objects.                                               *)
 (***************************************************************************)
 EXTENDS Mxcsr, IEEE, TraceKit
-VARIABLE l
+VARIABLES l,
+          dirty      \* 0, or the nesting depth at which the body wrote the register itself (BodyWrite)
 
 IF32 == F32
 Three == DFromInt(3)
@@ -44,6 +45,13 @@ ReqOf(e) == [fz |-> e.req.fz, daz |-> e.req.daz, rn |-> e.req.rn]
 RECURSIVE ComposeT(_, _, _, _)
 ComposeT(r, st, ob, i) == IF i > Len(st) THEN r ELSE ComposeT(ApplyReq(ob[st[i].c].req, r), st, ob, i + 1)
 
+\* a body write at depth d stays in effect until the context at depth d is left
+NewDirty(e, newstack) ==
+  CASE e.op = "Begin" -> 0
+    [] e.op = "BodyWrite" -> IF dirty = 0 THEN Len(stack) ELSE IF Len(stack) < dirty THEN Len(stack) ELSE dirty
+    [] e.op = "Exit" -> IF dirty > Len(newstack) THEN 0 ELSE dirty
+    [] OTHER -> dirty
+
 Fails(e) ==
   LET pre == RegOfWord(e.pre)
       post == RegOfWord(e.post)
@@ -53,6 +61,7 @@ Fails(e) ==
                     [] OTHER -> stack
       newobjs == IF e.op = "Create" THEN [objs EXCEPT ![e.c] = [@ EXCEPT !.req = ReqOf(e), !.st = "created"]] ELSE objs
       start == IF e.op = "Begin" THEN pre ELSE init
+      newdirty == NewDirty(e, newstack)
   IN
      (IF e.op = "Begin" /\ Ctl(post) # Ctl(pre) THEN {"begin_pure"} ELSE {})
   \cup (IF e.op = "Create" /\ (Ctl(post) # Ctl(pre) \/ ~FlagsKept(pre, post) \/ e.raised # "")
@@ -66,12 +75,17 @@ Fails(e) ==
   \cup (IF e.op = "Exit" /\ e.raised # "" THEN {"exit_raised"} ELSE {})
   \cup (IF e.op = "Exit" /\ Ctl(post) # Ctl(top.entry) THEN {"exit_restores"} ELSE {})
   \cup (IF e.op = "Exit" /\ ~FlagsKept(top.entry, post) THEN {"exit_keeps_entry_flags"} ELSE {})
+  \* "on exit the register holds EXACTLY the value it had on entry": also the status flags raised inside the body
+  \* are gone (the driver reads the register right after __exit__ returns, with no floating-point operation between)
+  \cup (IF e.op = "Exit" /\ e.raised = "" /\ post.flags # top.entry.flags THEN {"exit_restores_flags_exactly"} ELSE {})
   \cup (IF e.op = "Exit" /\ e.exc /\ ~e.propagated THEN {"exception_swallowed"} ELSE {})
   \cup (IF newstack = <<>> /\ Ctl(post) # Ctl(start) THEN {"balanced_identity"} ELSE {})
-  \cup (IF Ctl(post) # Ctl(ComposeT(start, newstack, newobjs, 1)) THEN {"nest_composition"} ELSE {})
+  \* (while a body write is in effect the control word is whatever the body made it)
+  \cup (IF newdirty = 0 /\ Ctl(post) # Ctl(ComposeT(start, newstack, newobjs, 1)) THEN {"nest_composition"} ELSE {})
+  \cup (IF e.op = "BodyWrite" /\ stack = <<>> THEN {"mach_body_write_outside"} ELSE {})
   \cup (IF ~EffectsOK(e) THEN {"effects"} ELSE {})
 
-TInit == /\ l = 1
+TInit == /\ l = 1 /\ dirty = 0
          /\ mxcsr = NoReg /\ init = NoReg /\ stack = <<>> /\ last = <<>>
          /\ objs = [c \in Objs |-> Fresh]
 
@@ -91,6 +105,10 @@ TNext ==
                        [] e.op = "Exit" -> SubSeq(stack, 1, Len(stack) - 1)
                        [] OTHER -> stack
          /\ last' = <<e.op>>
+         /\ dirty' = NewDirty(e, CASE e.op = "Begin" -> <<>>
+                                    [] e.op = "Enter" /\ e.raised = "" -> Append(stack, [c |-> e.c, entry |-> pre])
+                                    [] e.op = "Exit" -> SubSeq(stack, 1, Len(stack) - 1)
+                                    [] OTHER -> stack)
   /\ l' = l + 1
-TSpec == TInit /\ [][TNext]_<<vars, l>>
+TSpec == TInit /\ [][TNext]_<<vars, l, dirty>>
 =============================================================================
